@@ -286,3 +286,47 @@ Proof.
   destruct (Z.eqb_spec code 204); [contradiction|]. cbn [negb andb].
   unfold to_bytes_t. cbn. repeat split; reflexivity.
 Qed.
+
+(* ====================================================================== *)
+(* SetOutputFile: the file holds the body, whatever it held before        *)
+(* ====================================================================== *)
+
+Lemma store_get_put_same p c st : store_get p (store_put p c st) = Some c.
+Proof.
+  induction st as [|[q c0] st IH]; cbn [store_put store_get].
+  - now rewrite bytes_eqb_refl.
+  - destruct (bytes_eqb p q) eqn:E; cbn [store_get]; rewrite E; [reflexivity|exact IH].
+Qed.
+
+Lemma store_get_put_other p q c st : bytes_eqb q p = false -> store_get q (store_put p c st) = store_get q st.
+Proof.
+  intros H. induction st as [|[q0 c0] st IH]; cbn [store_put store_get].
+  - now rewrite H.
+  - destruct (bytes_eqb p q0) eqn:E; cbn [store_get].
+    + apply bytes_eqb_eq in E. subst q0. now rewrite H.
+    + destruct (bytes_eqb q q0); [reflexivity|exact IH].
+Qed.
+
+(* "saved to a file" = the body: for EVERY previous state of the file system (the file may exist
+   and be longer), every output directory / file name, after the exchange the file holds
+   exactly the body, and no other file changed *)
+Theorem output_file_equals_body st dir file code d :
+  let r := finish (save_cfg None false) code {| rd_rem := d; rd_end := BEof |} in
+  let st' := download_to_file st dir file (a_out r) in
+  store_get (output_path dir file) st' = Some d /\
+  (forall q, bytes_eqb q (output_path dir file) = false -> store_get q st' = store_get q st) /\
+  s_err (a_state r) = false.
+Proof.
+  cbn zeta. unfold download_to_file. split; [|split].
+  - rewrite store_get_put_same. reflexivity.
+  - intros q Hq. now apply store_get_put_other.
+  - reflexivity.
+Qed.
+
+(* the same path reused across exchanges: the last body wins, in full *)
+Theorem output_file_last_write_wins st dir file c1 d1 c2 d2 :
+  match download_all st dir [(file, c1, d1); (file, c2, d2)] with
+  | [_; st2] => store_get (output_path dir file) st2 = Some d2
+  | _ => False
+  end.
+Proof. cbn [download_all]. unfold download_to_file. apply store_get_put_same. Qed.
